@@ -5,6 +5,7 @@ import (
 	"go/ast"
 	"go/token"
 	"go/types"
+	"math/big"
 	"sort"
 	"strings"
 
@@ -552,35 +553,130 @@ func normaliseParams(e sym.Expr) sym.Expr {
 	return sym.Subst(e, sub)
 }
 
-// intSafeKey: a canonical text of a term modulo associativity and commutativity of + and * only
-// (nothing is distributed, cancelled or moved across a division or a subtraction).
+// intSafeKey: a canonical text of a term modulo the laws that hold in integer arithmetic too:
+// associativity and commutativity of + and * (and of max/min), a - b = a + (-1)*b, -x = (-1)*x,
+// folding of integer constants. Nothing is distributed, cancelled or moved across a division.
 func intSafeKey(e sym.Expr) string {
-	var flat func(e sym.Expr, op string, into *[]string)
-	flat = func(e sym.Expr, op string, into *[]string) {
-		if b, ok := e.(sym.Bin); ok && b.Op == op {
-			flat(b.L, op, into)
-			flat(b.R, op, into)
+	var sum func(e sym.Expr, sign int64, terms *[]string, c *big.Rat)
+	var prod func(e sym.Expr, factors *[]string, c *big.Rat)
+	sum = func(e sym.Expr, sign int64, terms *[]string, c *big.Rat) {
+		switch x := e.(type) {
+		case sym.Bin:
+			if x.Op == "+" {
+				sum(x.L, sign, terms, c)
+				sum(x.R, sign, terms, c)
+				return
+			}
+			if x.Op == "-" {
+				sum(x.L, sign, terms, c)
+				sum(x.R, -sign, terms, c)
+				return
+			}
+		case sym.Neg:
+			sum(x.X, -sign, terms, c)
+			return
+		case sym.Num:
+			c.Add(c, new(big.Rat).Mul(x.V, big.NewRat(sign, 1)))
 			return
 		}
-		*into = append(*into, intSafeKey(e))
+		// a product term: fold the sign into its constant
+		var fs []string
+		k := big.NewRat(sign, 1)
+		prod(e, &fs, k)
+		sort.Strings(fs)
+		if len(fs) == 0 {
+			c.Add(c, k)
+			return
+		}
+		t := strings.Join(fs, " * ")
+		if k.Cmp(big.NewRat(1, 1)) != 0 {
+			t = k.RatString() + " * " + t
+		}
+		*terms = append(*terms, t)
 	}
+	prod = func(e sym.Expr, factors *[]string, c *big.Rat) {
+		switch x := e.(type) {
+		case sym.Bin:
+			if x.Op == "*" {
+				prod(x.L, factors, c)
+				prod(x.R, factors, c)
+				return
+			}
+		case sym.Neg:
+			c.Neg(c)
+			prod(x.X, factors, c)
+			return
+		case sym.Num:
+			if x.V.IsInt() {
+				c.Mul(c, x.V)
+				return
+			}
+		}
+		*factors = append(*factors, intSafeAtom(e))
+	}
+	switch x := e.(type) {
+	case sym.Bin:
+		if x.Op == "+" || x.Op == "-" || x.Op == "*" {
+			var terms []string
+			c := new(big.Rat)
+			sum(e, 1, &terms, c)
+			sort.Strings(terms)
+			if c.Sign() != 0 || len(terms) == 0 {
+				terms = append(terms, c.RatString())
+			}
+			if len(terms) == 1 {
+				return terms[0]
+			}
+			return "(" + strings.Join(terms, " + ") + ")"
+		}
+	case sym.Neg:
+		var terms []string
+		c := new(big.Rat)
+		sum(e, 1, &terms, c)
+		if c.Sign() != 0 || len(terms) == 0 {
+			terms = append(terms, c.RatString())
+		}
+		if len(terms) == 1 {
+			return terms[0]
+		}
+		return "(" + strings.Join(terms, " + ") + ")"
+	}
+	return intSafeAtom(e)
+}
+
+func intSafeAtom(e sym.Expr) string {
 	switch x := e.(type) {
 	case sym.Num:
 		return x.V.RatString()
 	case sym.Var:
 		return x.Name
-	case sym.Neg:
-		return "neg(" + intSafeKey(x.X) + ")"
 	case sym.Bin:
-		if x.Op == "+" || x.Op == "*" {
-			var parts []string
-			flat(x, x.Op, &parts)
-			sort.Strings(parts)
-			return "(" + strings.Join(parts, " "+x.Op+" ") + ")"
+		if x.Op == "/" {
+			return "(" + intSafeKey(x.L) + " / " + intSafeKey(x.R) + ")"
+		}
+		if x.Op == "+" || x.Op == "-" || x.Op == "*" {
+			return intSafeKey(e)
 		}
 		return "(" + intSafeKey(x.L) + " " + x.Op + " " + intSafeKey(x.R) + ")"
+	case sym.Neg:
+		return intSafeKey(e)
 	case sym.Call:
 		var as []string
+		if x.Fn == "max" || x.Fn == "min" {
+			var flat func(c sym.Call)
+			flat = func(c sym.Call) {
+				for _, a := range c.Args {
+					if in, ok := a.(sym.Call); ok && in.Fn == x.Fn {
+						flat(in)
+					} else {
+						as = append(as, intSafeKey(a))
+					}
+				}
+			}
+			flat(x)
+			sort.Strings(as)
+			return x.Fn + "(" + strings.Join(as, ", ") + ")"
+		}
 		for _, a := range x.Args {
 			as = append(as, intSafeKey(a))
 		}
